@@ -43,7 +43,7 @@ for p in props:
             "evidence_file": f"/verif/evidence/{i}.json",
             "replay_cmd_template": f"./check {i} --replay {{path}}",
             "engine": "vh-harness",
-            "level_claimed": {"category": level, "text": text, "design_ref": ref},
+            "level_claimed": {"category": level, "text": text + " The workload classes added by the nine mutation rounds (what is driven, how many cases, which oracle) are listed per check in DESIGN.md appendix F, generated from the evidence of a clean run, and in seeded/INDEX.md.", "design_ref": ref},
             "level_note": note,
             "technique": tech,
         })
